@@ -82,3 +82,18 @@ reg('C20',
     level_text='Exhaustive for the stated heap sizes and capacities: BFS to the fix-point of the reachable state set (or the stated cap), every history over the operation alphabet.',
     level_note='texts are runs of one letter; quote characters and the 255-character cut are the subject of C18',
     design_ref='DESIGN.md section 3 / C20')
+
+reg('C13',
+    title='tokenizer recognises exactly the IEEE 488.2 program-data token syntax',
+    src='c13_lexer.c',
+    configs={'quick': ['def'], 'thorough': ['def']},
+    deadline={'quick': 100, 'thorough': 1500},
+    level=MC, nontrivial_stat='nontrivial',
+    technique='bounded-exhaustive enumeration of all input strings up to length L per recogniser, executed on the real lexer (ASan) and compared with independent reference recognisers',
+    rule={'quick': 'every string of length <= L (5 or 6, per recogniser) over an alphabet with one representative per character class the recogniser distinguishes, for each of the 14 scpiLex_* recognisers, scpiParser_parseProgramData, scpiParser_parseAllProgramData and scpiParser_detectProgramMessageUnit (L=5, 17 symbols), each in 3 buffer placements (exact-size heap copy; embedded at offset 3 between attractive bytes; cursor in mid-buffer), plus grammar-generated blocks/strings/headers up to 320 bytes; non-trivial = input on which the reference recognises a token / a well-formed unit',
+          'thorough': 'as quick with L = 6 or 7 per recogniser and L=6 for the unit detector'},
+    assumptions=['the reference implements the three documented leniencies (relaxed suffix, definite-length blocks only, flat expressions) and the incomplete-input conventions listed in ref_lex.h',
+                 'characters are represented by class (one representative each); the recognisers only branch on class membership'],
+    level_text='Exhaustive over all strings up to the stated length for every recogniser: any disagreement in return value, type, extent, length or cursor with the reference, or any read outside the input, is reported.',
+    level_note='private (LOCAL) lexer functions are called by name, as the repository tests do',
+    design_ref='DESIGN.md section 3 / C13')
